@@ -52,10 +52,15 @@ def rows(thorough, rng):
                 hh = rng.choice(HHOSTS) if not critical else None          # thorough: all routes; all observability hosts only on the boundary
                 for v in ([via] if via else vias):
                     for (hhost, hloop) in ([hh] if hh else HHOSTS[1:]):
-                        out.append("cfgrow env=%s envclass=%s fsync=%s snap=%s recovery=%s strategy=%s auth=%d rl=%d "
-                                   "obs=%s fresh=%d tls=%d host=%s loop=%d hhost=%s hloop=%d via=%s" % (
-                                       hexs(env), cls, fs, sn, rc, st, au, rl, ob, fr, tl, hexs(host), loop,
-                                       "-" if hhost is None else hexs(hhost), loop if hhost is None else hloop, v))
+                        row = ("cfgrow env=%s envclass=%s fsync=%s snap=%s recovery=%s strategy=%s auth=%d rl=%d "
+                               "obs=%s fresh=%d tls=%d host=%s loop=%d hhost=%s hloop=%d via=%s" % (
+                                   hexs(env), cls, fs, sn, rc, st, au, rl, ob, fr, tl, hexs(host), loop,
+                                   "-" if hhost is None else hexs(hhost), loop if hhost is None else hloop, v))
+                        out.append(row)
+                        if critical and tl == 0:
+                            # TLS switched OFF while certificate and key paths are still configured: the flag decides, not the
+                            # material (seeded change C18-3)
+                            out.append(row + " certs=1")
     return out
 
 
